@@ -269,6 +269,12 @@ def oracle(s, line, nvd, ncd):
                 got.append((int(k), undo_R(v) if v[0] == 'R' else int(v[1:])))
         if ok:
             ok = len(got) == len(ent) and all(a == c and (same_real(b, d) if kind & 4 else b == d) for (a, b), (c, d) in zip(ent, got))
+        if not ok and kind & 4 and e[5] == 'OK':
+            miss = [(k, v) for k, v in ent if isinstance(v, float) and math.isnan(v) and k not in [g[0] for g in got]]
+            if miss:
+                bad.append(('suffix', 'NaN entry of a real-valued output suffix not written: suffix %r kind %d, entries %s written to the solver, entry #%d (NaN) is not in the file (read %s)'
+                            % (name[:20], kind % 16, ent[:4], miss[0][0], e[1:8])))
+                continue
         if not ok:
             bad.append(('suffix', 'suffix %r kind %d: wrote table %r entries %s, read %s' % (name[:20], kind % 16, table[:30], ent[:4], e[1:8])))
     if i != len(events):
